@@ -626,26 +626,15 @@ def rule_sequence_shape(ctx: Ctx, rule: str) -> None:
     repo = ctx.repo
     sq = repo.func(WP, 'WcParse._sequence')
     q = fq(sq)
-    init = [s for s in sq.node.body if isinstance(s, ast.Assign) and norm_src(s.targets[0]) == 'result']
-    ctx.ob(rule, f'{WP}:WcParse._sequence/opens', bool(init) and norm_src(init[0].value) == "['[']", repo.loc(WP, sq.node), "result = ['[']", norm_src(init[0].value) if init else 'none')
-    neg = [c for c in q.calls(lambda s: s == 'result.append') if c.args and norm_src(c.args[0]) == "'^'"]
-    okn = len(neg) == 1 and any(equivalent_tests(n.test, "c in ('!', '^')") or norm_src(n.test) in ("c in ('^', '!')",)
-                                for n in walk_no_nested(sq.node) if isinstance(n, ast.If) and any(x is neg[0] for s in n.body for x in ast.walk(s)))
-    ctx.ob(rule, f'{WP}:WcParse._sequence/negation', okn, repo.loc(WP, neg[0] if neg else sq.node), "if c in ('!', '^'): result.append('^')", str(okn),
-           witness="fnmatch('b', '[!a]') and fnmatch('b', '[^a]') must both be True")
+    from . import seqrules
+    seqrules.rule_sequence_prologue(ctx, rule, which={'opens', 'negation', 'leading-literals'})
+    seqrules.rule_sequence_epilogue(ctx, rule, which={'closes'})
     so = repo.const(WP, 'SET_OPERATORS')
     ctx.ob(rule, f'{WP}:SET_OPERATORS', so == frozenset(('&', '~', '|')), repo.loc(WP, repo.const_line(WP, 'SET_OPERATORS')), "{'&', '~', '|'}", str(sorted(so)),
            witness="fnmatch('&', '[&&]') must not trigger Python's nested-set syntax")
     esc = [s for s in q.stmts(lambda n: isinstance(n, ast.Assign)) if norm_src(s.targets[0]) == 'value' and ('c in SET_OPERATORS', 'T') in q.guards(s)]
     ctx.ob(rule, f'{WP}:WcParse._sequence/set-operators-escaped', len(esc) == 1 and norm_src(esc[0].value) == "'\\\\' + c", repo.loc(WP, esc[0] if esc else sq.node),
            "value = '\\\\' + c under c in SET_OPERATORS", norm_src(esc[0].value) if esc else 'none')
-    lead = [c for c in q.calls(lambda s: s == 'result.append') if c.args and norm_src(c.args[0]) == 're.escape(c)']
-    oklead = len(lead) == 2 and any(("c == '['", 'T') in q.guards(c) for c in lead) and \
-        any(any(t.replace('"', "'") in ("c in ('-', ']')", "c in (']', '-')") and p == 'T' for t, p in q.guards(c)) for c in lead)
-    ctx.ob(rule, f'{WP}:WcParse._sequence/leading-literals', oklead, repo.loc(WP, sq.node), 'leading `[`, `-`, `]` appended via re.escape', f'{len(lead)} escaped appends',
-           witness="fnmatch(']', '[]]') and fnmatch('-', '[-a]') must be True")
-    last = [c for c in q.calls(lambda s: s == 'result.append') if c.args and norm_src(c.args[0]) == "']'"]
-    ctx.ob(rule, f'{WP}:WcParse._sequence/closes', len(last) == 1, repo.loc(WP, sq.node), "result.append(']') once, after the scan loop", str(len(last)))
     hy = [s for s in q.stmts(lambda n: isinstance(n, ast.Expr)) if norm_src(s.value) == "result.append('\\\\' + c)" and ("c == '-'", 'T') in q.guards(s)]
     ctx.ob(rule, f'{WP}:WcParse._sequence/literal-hyphen-escaped', len(hy) >= 2, repo.loc(WP, sq.node), "a `-` that is not a range delimiter is emitted as `\\-`", str(len(hy)),
            witness="fnmatch('-', '[a-c-]') must be True and must not create a second range")
